@@ -9,7 +9,7 @@ import osc10
 
 TITLE = 'OSC encoding round-trips, conforms to OSC 1.0 and is sized correctly'
 TRANSLATED = ['Gen_size']
-MODEL_TARGETS = ['model/Osc.vo', 'model/OscSize.vo', 'model/OscCheck.vo', 'gen/Gen_size.vo']
+MODEL_TARGETS = ['model/Osc.vo', 'model/OscSize.vo', 'model/Osc10.vo', 'model/OscCheck.vo', 'gen/Gen_size.vo']
 ALLOWED_AXIOMS = []
 TRUSTED = [
     'hand-written models coq/model/Osc.v (sc3/base/_osclib.py, _oscinterface.py:_build_msg/_build_bundle) and '
@@ -464,6 +464,7 @@ def correspond(ctx):
                                   found_input=True))
 
     b_items, b_idx, s_items, s_idx, p_items, p_idx, k_items, k_idx = [], [], [], [], [], [], [], []
+    o_items, o_idx = [], []
     dgrams = []
     for n, (k, o) in enumerate(zip(allc, out)):
         if 'crash' in o:
@@ -480,6 +481,9 @@ def correspond(ctx):
             if not k.get('nobuild'):
                 b_items.append('(%s, ((0, %s) : Z * bytes))' % (term, cb(bytes.fromhex(b[1]))))
                 b_idx.append(n)
+                if not has_noslash(pyval(k['v'])) and len(b[1]) < 20000:
+                    o_items.append(cb(bytes.fromhex(b[1])))     # the Coq OSC 1.0 decoder must accept it
+                    o_idx.append(n)
                 if k.get('parse', True) and 'parse' in o:
                     dgrams.append(bytes.fromhex(b[1]))
                     if o['parse'][0] != 'unicode':
@@ -546,6 +550,7 @@ def correspond(ctx):
         ('build', b_items, b_idx, 'Eval vm_compute in bad_idx (fun c => build_ok true (fst c) (snd c)) cases.', 60),
         ('size', s_items, s_idx, 'Eval vm_compute in bad_idx (fun c => size_ok true (fst c) (snd c)) cases.', 80),
         ('parse', p_items, p_idx, 'Eval vm_compute in bad_idx (fun c => parse_ok (fst c) (snd c)) cases.', 80),
+        ('osc10', o_items, o_idx, 'Eval vm_compute in bad_idx osc10_accepts cases.', 80),
         ('clump', k_items, k_idx, "Eval vm_compute in bad_idx (fun c => let '(s, a, e) := c in clump_ok true s a e) cases.", 12),
         ('strpad4', sp_items, ns, 'Eval vm_compute in bad_idx (fun c => strpad4 (fst c) =? snd c) cases.', 200),
     ]
@@ -562,6 +567,10 @@ def correspond(ctx):
                         % ('encoding' if name == 'build' else 'predicted size', show(k['v']),
                            (o['build'][:1] + o['build'][2:]) if name == 'build' else o['pred']))
                 c.failures.append(Failure('correspondence', what, replay={'check': name, 'case': k, 'impl': {x: o[x] for x in ('build', 'pred') if x in o}}))
+            elif name == 'osc10':
+                k, o = allc[ref], out[ref]
+                c.failures.append(Failure('correspondence', 'the independent OSC 1.0 decoder (coq/model/Osc10.v) rejects the datagram built for %s: %r'
+                                          % (show(k['v']), bytes.fromhex(o['build'][1])[:160]), replay={'check': name, 'case': k, 'dgram': o['build'][1]}))
             elif name == 'clump':
                 k, o = allc[ref[0]], out[ref[0]]
                 cl = [x for x in o['clumps'] if x['size'] == ref[1]][0]
@@ -654,6 +663,7 @@ def probe_trees(ctx):
            ('msg', [S('/x'), [S('/y'), Y(b'a')]]), ('msg', [S('/x'), [S('/y'), S('€€')]]), ('msg', [S('/x'), []]),
            ('msg', [S('/x'), [Fl(0.0), [S('/y')]]]), ('msg', [S('/x'), [None, [S('/y'), Y(b'abc')]]]),
            ('bundle', [Fl(0.2), [S('/x'), Y(b'abcde')], [S('/y'), S('éééé')]]),
+           ('bundle', [None, [None, [S('/y')]]]), ('msg', [S('/é'), I(1)]), ('msg', [S('/x'), [None, [None, [S('/y')]]]]),
            ('msg', [S('/x'), S('a\x00b')]), ('msg', [S('/x'), S('a\x00bcdefg'), I(5)]), ('msg', [S('/a\x00b'), I(1)]),
            ('msg', [S('/x'), S('\x00')]),
            ('bundle', [Fl(0.2), [S('/x'), S('ab\x00')]])]
@@ -707,6 +717,12 @@ def search(ctx, failures):
                    '%s = %d but the message encodes to %d bytes (predicted size below the real size)' % (call, o['pred'], len(dgram)),
                    {'probe': 'size', 'case': k, 'predicted': o['pred'], 'real': len(dgram), 'expected': 'predicted >= real',
                     'command': './check C06 --replay <this file>'}, 'size_upper_bound')
+        if o['pred'] < 0:
+            report('C06:size_prediction_refuses_accepted',
+                   '%s raises although the %s is accepted for sending and encodes to %d bytes: send_clumped_bundles/sync cannot send it'
+                   % (call, 'message' if k['kind'] == 'msg' else 'bundle', len(dgram)),
+                   {'probe': 'size', 'case': k, 'predicted': 'raises', 'real': len(dgram), 'expected': 'a size >= real',
+                    'command': './check C06 --replay <this file>'}, 'size_defined')
         if has_noslash(v):
             continue
         try:
@@ -733,10 +749,15 @@ def search(ctx, failures):
         probes.append(([[S('/m%03d' % (j % 1000)), Y(bytes(per))] for j in range(n)], MAX_UDP - SYNC, True))
     cc = [{'kind': 'bundle', 'v': [Fl(0.2)] + els, 'send_time': 0.0, 'itf': 'nrt', 'clump': [size], 'sync': sync, 'parse': False}
           for els, size, sync in probes]
+    cc.append({'kind': 'bundle', 'v': [None, [S('/x'), I(1)], [None, [S('/y')]]], 'send_time': 0.0, 'itf': 'nrt', 'clump': [8192], 'sync': False, 'parse': False})
     cout = ctx.impl('c06_osc', {'cases': cc}, timeout=900)['out']
     for k, o in zip(cc, cout):
         for cl in o.get('clumps', []):
             if 'err' in cl:
+                if o.get('build', ['x'])[0] == 'ok':
+                    report('C06:clump_refuses_accepted', '_clump_bundle(%s) raises %s although send_bundle accepts these elements'
+                           % (show(k['v'][1:]), cl.get('exc')), {'probe': 'clump_raises', 'case': k, 'observed': cl, 'expected': 'a list of clumps',
+                                                                  'command': './check C06 --replay <this file>'}, 'clump_defined')
                 continue
             n = len(k['v']) - 1
             desc = '%d elements like %s, size=%d' % (n, show(k['v'][1]), cl['size'])
@@ -755,9 +776,9 @@ def search(ctx, failures):
 
 def replay(ctx, rp):
     r = rp.get('replay', rp)
-    if r.get('probe') in ('size', 'roundtrip') or r.get('check') in ('build', 'size'):
+    if r.get('probe') in ('size', 'roundtrip', 'clump_raises') or r.get('check') in ('build', 'size'):
         o = ctx.impl('c06_osc', {'cases': [r['case']]})['out'][0]
-        print(json.dumps({'input': show(r['case']['v']), 'build': o.get('build'), 'predicted': o.get('pred'),
+        print(json.dumps({'input': show(r['case']['v']), 'build': o.get('build'), 'predicted': o.get('pred'), 'clumps': o.get('clumps'),
                           'real': o['build'][2] if o.get('build', ['x'])[0] == 'ok' else None}, indent=1))
         return 0
     if r.get('probe') == 'clump':
